@@ -133,6 +133,16 @@ func Managed() bool {
 	return active && byGoid[goid()] != nil
 }
 
+// Name is the name of the calling goroutine if it is managed, "" otherwise.
+func Name() string {
+	mu.Lock()
+	defer mu.Unlock()
+	if g := byGoid[goid()]; active && g != nil {
+		return g.name
+	}
+	return ""
+}
+
 // Pos describes where a managed goroutine is.
 type Pos struct {
 	Name  string
